@@ -6,6 +6,7 @@
 -/
 import Lemmas.RealCarrier
 import Lemmas.TieTactics
+import Lemmas.TieSums
 import Lemmas.TieLists
 import Proofs.TieImages
 import Proofs.TieSite
@@ -42,14 +43,14 @@ theorem packed_check_intersection_tie (s : Crystal ℝ) :
     Gen.packed_check_intersection s = s.checkIntersection := by
   unfold Gen.packed_check_intersection Crystal.checkIntersection Crystal.shells
   simp only [shape_transform_tie, shape_intersects_tie, shape_radius_tie, packed_cartesian_positions_tie, packed_relative_positions_tie, periodic_images_tie,
-    cell_a_tie, cell_b_tie, cell_angle_tie, packed_factors_real.1, packed_factors_real.2]
+    cell_a_tie, cell_b_tie, cell_angle_tie, packed_factors_real.1, packed_factors_real.2, PV.ite_bool_id]
   have hpairs := any_enumerate_skip (fun a b : Shape ℝ => a.intersects b)
     (s.cartPositions.map fun p => s.shape.transform p)
-  simp only [Bool.if_true_left, Bool.or_false, Bool.if_false_right, Bool.and_true, ite_eq_left_iff,
-    Bool.decide_eq_true] at hpairs ⊢
+  -- searches and their guards in one normal form (`b || x`, `decide c && x`), whichever way the source
+  -- writes them: nested `if`s, `continue` guards, `any`, hoisted lists
+  simp only [PV.ite_false_right', PV.ite_false_left', PV.ite_true_left', not_lt, powi_two] at hpairs ⊢
   rw [hpairs]
-  all_goals (try simp only [Nat.cast_ofNat, powi_two])
-  all_goals tie_deep
+  first | rfl | (ring_nf; done) | tie_deep
 
 theorem packed_score_tie (s : Crystal ℝ) : Gen.packed_score s = s.scoreHard := by
   unfold Gen.packed_score Crystal.scoreHard
